@@ -45,6 +45,7 @@ class BuildResult:
         self.missing: list[str] = []
         self.forbidden_hits: list[str] = []
         self.failed_modules: list[str] = []
+        self.leanchecker: bool | None = None
 
 
 def strip_comments(text: str) -> str:
@@ -52,7 +53,7 @@ def strip_comments(text: str) -> str:
     return "\n".join(line.split("--")[0] for line in text.split("\n"))
 
 
-def build(pid: str, modules: list[str], theorems: list[str]) -> BuildResult:
+def build(pid: str, modules: list[str], theorems: list[str], tier: str = "quick") -> BuildResult:
     """Regenerate tables, build model + driver + the property's proof modules, audit axioms."""
     res = BuildResult()
     lock = open(LEAN_DIR / ".build.lock", "w")
@@ -101,6 +102,14 @@ def build(pid: str, modules: list[str], theorems: list[str]) -> BuildResult:
             if res.missing or bad:
                 res.proof_ok = False
                 res.log += f"\naudit: missing={res.missing} disallowed={bad}\n"
+        # thorough: independent re-check of the compiled proof modules by leanchecker
+        if res.proof_ok and tier == "thorough" and modules:
+            rc, out = sh(["lake", "env", "leanchecker", *[f"JellyProofs.{m}" for m in modules]], cwd=LEAN_DIR, timeout=3600)
+            res.log += out
+            res.leanchecker = rc == 0
+            if rc != 0:
+                res.proof_ok = False
+                res.log += "\nleanchecker rejected the compiled proofs\n"
     finally:
         fcntl.flock(lock, fcntl.LOCK_UN)
         lock.close()
@@ -127,7 +136,8 @@ class Ctx:
         return self.tier == "quick"
 
     def n(self, quick: int, thorough: int) -> int:
-        return quick if self.tier == "quick" else thorough
+        # thorough counts in props.py are 10x quick; the scale deepens them further (default 4 => 40x quick)
+        return quick if self.tier == "quick" else thorough * int(os.environ.get("VERIF_THOROUGH_SCALE", "4"))
 
     def rng(self, *salt):
         return common.rng(self.pid, *salt)
@@ -220,7 +230,7 @@ def finish(ctx: Ctx, b: BuildResult, spec: dict) -> int:
             evaluations=ctx.evaluations, distinct_nontrivial=len(ctx.keys),
             rule=spec.get("rule", ""), samples=ctx.samples[:5] or [spec.get("rule", "n/a")],
             correspondence_lines_compared=ctx.corr_checked, disagreements=len(ctx.disagreements),
-            distribution=dict(ctx.dist), exhaustive=ctx.exhaustive, known_findings_observed=sorted(ctx.known_hits),
+            distribution=dict(ctx.dist), exhaustive=ctx.exhaustive, leanchecker_recheck=b.leanchecker, known_findings_observed=sorted(ctx.known_hits),
             **ctx.extra),
         assumptions=spec.get("assumptions", []) + ctx.notes,
         wall_s=round(time.time() - ctx.t0, 2), violations=violations)
